@@ -174,11 +174,11 @@ func init() {
 			Batches: [2]int{1, 6}, PerBatch: [2]int{48, 64}, Cases: [2]int{100, 400},
 			Rule: "server-only schemas with path variables and (repeated, renamed) query parameters x raw requests carrying exactly one unconvertible URL value or lacking a required query parameter; oracle: 400 ValidationError in the request's content type whose violation names the proto field (not the parameter name)"},
 		Batches: [2]int{1, 10}, PerBatch: [2]int{48, 64}, Cases: [2]int{250, 800},
-		Rule:        "cases = (schema with buf.validate rules on top-level, nested, repeated and map-value fields, required headers, custom *Error messages) x RPC x error source {header violation, rule violation, plain error, sebuf Error, wrapped sebuf Error, handler-returned ValidationError, custom *Error message (+wrapped)} x content type {JSON, binary} x error hook {none, returns nil, returns message, sets status, sets header, writes body, combinations}; the call goes through the generated Go client; the emitted TypeScript server is driven over raw HTTP with handler Errors (500 {message}), handler ValidationErrors (400, same violations), missing required headers (400, one violation each, no dispatch) and an onError hook. Oracle = documented error contract E: status, hook header, body decoded in the request's content type (message equality / violation field names = dotted proto paths or header names computed by the reference validator), and client error type (errors.As ValidationError / Error, or an error carrying status or body). Non-trivial = a hook is installed, binary content type, or a nested violation path; distinct by (case, wire body).",
+		Rule:        "cases = (schema with buf.validate rules on top-level, nested, repeated and map-value fields, required headers, custom *Error messages) x RPC x error source {header violation, rule violation, plain error, sebuf Error, wrapped sebuf Error, handler-returned ValidationError (+wrapped: status and body must agree), custom *Error message (+wrapped)} x content type {JSON, binary} x error hook {none, returns nil, returns message, sets status, sets header, writes body, combinations}; the call goes through the generated Go client; the emitted TypeScript server is driven over raw HTTP with handler Errors (500 {message}), handler ValidationErrors (400, same violations), missing required headers (400, one violation each, no dispatch) and an onError hook. Oracle = documented error contract E: status, hook header, body decoded in the request's content type (message equality / violation field names = dotted proto paths or header names computed by the reference validator), and client error type (errors.As ValidationError / Error, or an error carrying status or body). Non-trivial = a hook is installed, binary content type, or a nested violation path; distinct by (case, wire body).",
 		Assumptions: append([]string{"rule violations come from the stand-in validator (standard-rule subset); subscripts in field paths are ignored when comparing"}, commonAssumptions...)})
 	registerRuntime(&runtimeCheck{ID: "C11", Profile: schema.ProfileCodec, Inner: []string{"c11", "c11client", "c11ts"}, Prefix: "f", Prepare: prepareTS, ServerOnlyEvery: 4,
 		Batches: [2]int{1, 12}, PerBatch: [2]int{128, 64}, Cases: [2]int{200, 1000},
-		Rule:        "server cases = (schema from the codec profile: every message shape with a custom decoder) x body-carrying RPC x structure-aware mutation of the model-encoded valid body {a field replaced by a value invalid in every accepted form (wrong JSON type, non-numeric / fractional / overflowing numbers, text invalid in the declared bytes/timestamp encoding, at depth <= 3), truncation at any offset, trailing garbage, null/array/scalar at top level, nesting to 200000, invalid UTF-8, duplicate keys, 1e999999, random bytes, random / truncated protobuf wire data} x content types incl. parameters, unknown and empty. Oracle: no panic, status in {200,400}, a 400 body is a ValidationError with >= 1 violation and no dispatch, bodies invalid in every accepted form are never dispatched, dispatched binary bodies equal the reference decoding, latency within 100x the unit's median (re-checked). Client cases = arbitrary (status, content type, body kind) served by a stub transport to the generated Go client: returns value or error, never panics, never hangs (20 s), never reports success for status >= 400 or a transport failure. Non-trivial = wrong-type mutation or a message with a custom decoder (server); any non-valid body (client); distinct by case text.",
+		Rule:        "server cases = (schema from the codec profile: every message shape with a custom decoder) x body-carrying RPC x structure-aware mutation of the model-encoded valid body {a field replaced by a value invalid in every accepted form (wrong JSON type, non-numeric / fractional / overflowing numbers, text invalid in the declared bytes/timestamp encoding, at depth <= 3), truncation at any offset, trailing garbage, null/array/scalar at top level, nesting to 200000, invalid UTF-8, duplicate keys, 1e999999, hundreds of bytes of non-ASCII text the decoder quotes back, random bytes, random / truncated protobuf wire data} x content types incl. parameters, unknown and empty. Oracle: no panic, status in {200,400}, a 400 body is a ValidationError with >= 1 violation and no dispatch, bodies invalid in every accepted form are never dispatched, dispatched binary bodies equal the reference decoding, latency within 100x the unit's median (re-checked). Client cases = arbitrary (status, content type, body kind) served by a stub transport to the generated Go client: returns value or error, never panics, never hangs (20 s), never reports success for status >= 400 or a transport failure. Non-trivial = wrong-type mutation or a message with a custom decoder (server); any non-valid body (client); distinct by case text.",
 		Assumptions: append([]string{"the deciding search is rapid's structure-aware mutation in both tiers; native coverage-guided fuzzing of generated packages is not registered (per-run packages have no stable corpus)", "duplicate keys, huge numbers and invalid UTF-8 are only judged for clean rejection or faithful dispatch, not for a fixed verdict"}, commonAssumptions...)})
 	registerRuntime(&runtimeCheck{ID: "C17", Profile: schema.ProfileConcurrency, Inner: []string{"c17"}, Prefix: "r", Race: true,
 		Second: &runtimeCheck{Profile: schema.ProfileMock, Inner: []string{"c17mock"}, Prefix: "k", Variant: "server", Param: "generate_mock=true", Race: true,
